@@ -16,6 +16,7 @@ RULE = ("online-generated programs (every operation, waveform kind, protocol, op
         "behaviourally identical (device, register, channels, timeline, samples 1e-9, phase references, measurement; "
         "parametrized: equal builds for two assignments), serialisation must be idempotent; legacy JSON likewise for "
         "built-in and virtual devices. non-trivial = distinct case with >= 3 op kinds and >= 1 non-default optional")
+RULE += " Later additions: templates also use strided slices of a variable as interpolation values with the times left out."
 ASSUMPTIONS = ["3D detuning maps are outside the abstract format (no z coordinate in its schema): such cases are gray",
                "qubit ids are strings; programs contain no deliberately invalid calls (cases tainted by a C09 partial effect are set aside)"]
 TIERS = {"quick": dict(cases=400, shards=8, case_timeout=180, shard_timeout=900),
